@@ -71,37 +71,42 @@ which order it is processed, which states each transition exits and enters in wh
 stabilisation does next (default children, history restoration by depth and name, orthogonal
 siblings in name order) — is, on the substituted statechart, the substituted decision. -/
 
-/-- **same selection**: same transitions (substituted), same guard evaluations in the same order -/
-theorem selection_commutes_with_renaming {S : Name → Prop} {ρ : Name → Name} (hρ : RenOK S ρ)
-    (c : Chart) (hc : NamesIn S c) (cfg : List Name) (hcfg : ∀ x ∈ cfg, S x)
+/-- **same selection**: same transitions (substituted), same guard evaluations in the same order;
+    `c'` is `c` with the names substituted by `ρ` and the transitions re-identified by `ι`
+    (`IsRen`; `c.mapNames ρ` with `ι = id`: `isRen_mapNames`) -/
+theorem selection_commutes_with_renaming {S : Name → Prop} {ρ : Name → Name} {ι : Nat → Nat} (hρ : RenOK S ρ)
+    (c : Chart) (hc : NamesIn S c) {c' : Chart} (hr : IsRen ρ ι c c') (cfg : List Name) (hcfg : ∀ x ∈ cfg, S x)
     (evName : Option String) (ok ok' : Trans → Bool → Bool)
-    (hok : ∀ t ∈ c.transitions, ∀ b, ok' (t.rename ρ) b = ok t b) :
-    selectTransitions (c.mapNames ρ) (cfg.map ρ) evName ok' =
-      (selectTransitions c cfg evName ok).rename ρ :=
-  selectTransitions_rename hρ c hc cfg hcfg evName ok ok' hok
+    (hok : ∀ t ∈ c.transitions, ∀ b, ok' (t.relabel ρ ι) b = ok t b) :
+    selectTransitions c' (cfg.map ρ) evName ok' =
+      (selectTransitions c cfg evName ok).rename ρ ι :=
+  selectTransitions_rename hρ c hc hr cfg hcfg evName ok ok' hok
 
 /-- **same verdict of `_sort_transitions`, same processing order** -/
-theorem ordering_commutes_with_renaming {S : Name → Prop} {ρ : Name → Name} (hρ : RenOK S ρ)
-    (c : Chart) (hc : NamesIn S c) (ts : List Trans) (hts : ∀ t ∈ ts, t ∈ c.transitions) :
-    sortTransitions (c.mapNames ρ) (ts.map (Trans.rename ρ)) =
-      (sortTransitions c ts).map (List.map (Trans.rename ρ)) :=
-  sortTransitions_rename hρ c hc ts hts
+theorem ordering_commutes_with_renaming {S : Name → Prop} {ρ : Name → Name} {ι : Nat → Nat} (hρ : RenOK S ρ)
+    (c : Chart) (hc : NamesIn S c) {c' : Chart} (hr : IsRen ρ ι c c') (ts : List Trans) (hts : ∀ t ∈ ts, t ∈ c.transitions) :
+    sortTransitions c' (ts.map (Trans.relabel ρ ι)) =
+      (sortTransitions c ts).map (List.map (Trans.relabel ρ ι)) :=
+  sortTransitions_rename hρ c hc hr ts hts
 
 /-- **same exit and entry lists, in the same order** -/
-theorem steps_commute_with_renaming {S : Name → Prop} {ρ : Name → Name} (hρ : RenOK S ρ)
-    (c : Chart) (hc : NamesIn S c) (cfg : List Name) (hcfg : ∀ x ∈ cfg, S x)
+theorem steps_commute_with_renaming {S : Name → Prop} {ρ : Name → Name} {ι : Nat → Nat} (hρ : RenOK S ρ)
+    (c : Chart) (hc : NamesIn S c) {c' : Chart} (hr : IsRen ρ ι c c') (cfg : List Name) (hcfg : ∀ x ∈ cfg, S x)
     (ev : Option Event) (ts : List Trans) (hts : ∀ t ∈ ts, t ∈ c.transitions) :
-    createSteps (c.mapNames ρ) (cfg.map ρ) ev (ts.map (Trans.rename ρ)) =
-      (createSteps c cfg ev ts).map (Micro.rename ρ) :=
-  createSteps_rename hρ c hc cfg hcfg ev ts hts
+    createSteps c' (cfg.map ρ) ev (ts.map (Trans.relabel ρ ι)) =
+      (createSteps c cfg ev ts).map (Micro.rename ρ ι) :=
+  createSteps_rename hρ c hc hr cfg hcfg ev ts hts
 
 /-- **same stabilisation** (history memory substituted) -/
-theorem stabilisation_commutes_with_renaming {S : Name → Prop} {ρ : Name → Name} (hρ : RenOK S ρ)
-    (c : Chart) (hc : NamesIn S c) (memory : List (Name × List Name))
+theorem stabilisation_commutes_with_renaming {S : Name → Prop} {ρ : Name → Name} {ι : Nat → Nat} (hρ : RenOK S ρ)
+    (c : Chart) (hc : NamesIn S c) {c' : Chart} (hr : IsRen ρ ι c c') (memory : List (Name × List Name))
     (hmk : ∀ p ∈ memory, S p.1) (hmv : ∀ p ∈ memory, ∀ x ∈ p.2, S x) (cfg : List Name) (hcfg : ∀ x ∈ cfg, S x) :
-    stabilizationStep (c.mapNames ρ) (renameMemory ρ memory) (cfg.map ρ) =
-      (stabilizationStep c memory cfg).map (Micro.rename ρ) :=
-  stabilizationStep_rename hρ c hc memory hmk hmv cfg hcfg
+    stabilizationStep c' (renameMemory ρ memory) (cfg.map ρ) =
+      (stabilizationStep c memory cfg).map (Micro.rename ρ ι) :=
+  stabilizationStep_rename hρ c hc hr memory hmk hmv cfg hcfg
+
+/-- the substituted statechart is an instance -/
+example (ρ : Name → Name) (c : Chart) : IsRen ρ id c (c.mapNames ρ) := isRen_mapNames ρ c
 
 /-- non-vacuity: a renaming of two of the names of a statechart that keeps their order, and is not
     order-preserving on other strings (`"b" ↦ "zz"` jumps over `"c"`) -/
